@@ -36,12 +36,16 @@ PreState(r) ==
   [roots |-> roots \cup {p \in P : NumLabels(p) = 1}, names |-> names \cup P, recs |-> recs]
 
 \* binding: the recorded outcome is the outcome of the Spec's method on that storage
+\* (the class of the refusing guard is compared only when the driver could classify the fault text)
 SpecOutcome(st, r) ==
   LET e == EvOf(r)
       o == DoAct(st, e.act, e.S, e.name, e.typ, e.id, e.s)
-  IN  o.res = r.res /\ o.ret = r.ret /\ o.why = r.why
+  IN  o.res = r.res /\ o.ret = r.ret /\ (r.why = "other" \/ o.why = r.why)
 SpecStepTx(r) ==
-  LET e == EvOf(r) IN Invoke(e.act, e.S, e.name, e.typ, e.id, e.s)
+  LET e == EvOf(r)
+      o == DoAct(St, e.act, e.S, e.name, e.typ, e.id, e.s)
+  IN  /\ roots' = o.st.roots /\ names' = o.st.names /\ recs' = o.st.recs
+      /\ o.res = r.res /\ o.ret = r.ret /\ (r.why = "other" \/ o.why = r.why)
 
 \* the raw storage agrees with what the API reports and holds nothing unknown
 RawApi(o) ==
@@ -62,8 +66,8 @@ JudgeTx(r) ==
       t == Tags(e)
   IN  /\ Flag(C18_OnlyValid(e), "C18", "OnlyValid", r, t)
       /\ Flag(C18_AllValid(e), "C18", "AllValid", r, t)
-      /\ Flag(C18_RejectInert(e) /\ ((e.res = "FAULT" \/ e.ret = "false") => sd' = sd), "C18", "RejectInert", r, t)
-      /\ Flag(C18_Stored(e), "C18", "Stored", r, t)
+      /\ Flag(C18_RejectInert(e) /\ (Refused(e) => sd' = sd), "C18", "RejectInert", r, t)
+      /\ Flag(Stored(e), "DRIFT", "Stored", r, t)
       /\ Flag(RawApi(r.obs), "DRIFT", "RawApi", r, t)
       /\ Flag(SpecStepTx(r), "DRIFT", "SpecStep", r, t)
 
